@@ -84,6 +84,13 @@ def run(ctx):
                         "quadratic in the number of words); calls that never allocate (State, Clear, ClearRange, the "
                         "searches) are driven up to math.MaxInt"]
     ctx.lean(props=["Props.C08"], drivers=["drv_c08"])
+    # Loop-level translator tie (added in the extension session): countSetBits, wordMask, bitIndexForMask, validateBitSetIndex, Count, State regenerated from the typed SSA of the working tree and proved EQUAL to the model functions (Props/C08Gen.lean).
+    # ADVISORY: it is run, audited and recorded on every run (coverage.bitset_advisory; on the unchanged tree it shows that
+    # the model functions ARE the code), but a broken tie alone raises no alarm - a structural tie of a function with
+    # loops also breaks under a behaviour-preserving restructuring of those loops (all four C20 controls and three of
+    # the C08 controls do that); the correspondence streams below decide.
+    from vlib import gentie
+    gentie.run(ctx, target="bitset", generated="SSA_Bitset.lean", module="Props.C08Gen", key="bitset", namespace="C08Gen", advisory=True)
     # the popcnt area needs the unexported helper countSetBits (overlay file).  The helper is not part of the property: if
     # a rewrite has removed or renamed it, the harness is built without that area instead of reporting a build failure
     nv = len(ctx.violations)
